@@ -44,6 +44,10 @@ def cases(tier, seed):
             out.append({"name": "bool.concurrent/%s/%s" % (op, "-".join(assign)), "kind": "conc", "op": op, "assign": list(assign), "cap": cap})
             out.append({"name": "bool.nested/%s/%s" % (op, "-".join(assign)), "kind": "nested", "op": op, "assign": list(assign),
                         "budget": 400 if tier == "quick" else None})
+        # compositions in which cancelling a loser feeds back into the output itself
+        for shape in ("and-over", "zip-over", "or-over", "callback"):
+            for decide in ("first", "second"):
+                out.append({"name": "bool.feedback/%s/%s/%s" % (op, shape, decide), "kind": "feedback", "op": op, "shape": shape, "decide": decide})
         # inputs that are library futures sharing a dependency (two f_map views of one future, a third plain input):
         # an input's cancel() / completion callbacks take that input's own lock
         vops = ["cancel_v1", "cancel_d", "decide_x", "complete_d", "cancel_out", "fail_d"]
@@ -378,6 +382,63 @@ class NestScenario(ConcScenario):
             res.key("nested", self.case["op"], "-".join(assign), info.get("site"), info.get("site2"))
 
 
+def run_feedback(case, res):
+    """out = f_or/f_and(a, b); something else depends on `out` and on the loser: z = f_and(out, b) / f_zip(out, b) /
+    f_or(out, b), or a user callback on the loser that cancels `out`.  When one input decides `out`, the loser is
+    cancelled, which reaches `out` again (on the same thread, inside the decision): `out` keeps the decided outcome."""
+    F = instr.ME.futures
+    op = case["op"]
+    for how in ("value", "exc"):
+        begin("rt")
+        ctx = Ctx()
+        try:
+            a, b = SpyFuture("a"), SpyFuture("b")
+            out = mk(op, [a, b])
+            z = None
+            if case["shape"] == "and-over":
+                z = F.f_and(out, b)
+            elif case["shape"] == "zip-over":
+                z = F.f_zip(out, b)
+            elif case["shape"] == "or-over":
+                z = F.f_or(out, b)
+            else:
+                b.add_done_callback(lambda _f: out.cancel())
+                a.add_done_callback(lambda _f: None)
+            decider, loser = (a, b) if case["decide"] == "first" else (b, a)
+            if case["shape"] == "callback" and case["decide"] == "second":
+                a.add_done_callback(lambda _f: out.cancel())
+            e = UserErrorA("decider")
+            want = None
+            try:
+                if how == "value":
+                    v = "decisive" if op == "or" else 0
+                    want = ("value", v)
+                    decider.set_result(v)
+                else:
+                    want = ("exc", e) if op == "and" else None  # a failed input decides f_and; for f_or it is just falsy
+                    decider.set_exception(e)
+            except instr.DeadlockBroken:
+                pass
+            res.execs += 1
+            check_common(res, deadlock_suffix="@bool.feedback/%s" % case["shape"])
+            if LM.deadlocks:
+                continue
+            o = outcome(out)
+            label = "f_%s(a, b) with %s depending on it, %s decides by %s" % (op, case["shape"], "a" if decider is a else "b", how)
+            if want is not None:
+                ok = (o == want) if want[0] == "value" else (o[0] == "exc" and o[1] is want[1])
+                if not ok:
+                    res.violation("decided-outcome-lost/%s" % case["shape"], "%s: the output is %s, the deciding input gave %s"
+                                  % (label, outcome_repr(o), outcome_repr(want)))
+                elif not loser.cancel_calls and not loser.done():
+                    res.violation("losers-not-cancelled/%s" % op, "%s: the other input received no cancel()" % label)
+            res.key("feedback", op, case["shape"], case["decide"], how)
+            res.sample({"op": op, "dependent": case["shape"], "decided_by": [case["decide"], how], "output": outcome_repr(o),
+                        "dependent_outcome": outcome_repr(outcome(z)) if z is not None else None}, limit=1)
+        finally:
+            end(ctx)
+
+
 class ViewScenario(object):
     """out = f_or/f_and(f_map(d), f_map(d), x): thread A acts on one input (cancels a view / the shared source,
     completes it), thread B makes x decide the output, which cancels the losers.  Every call returns and the
@@ -456,6 +517,8 @@ class ViewScenario(object):
 
 def run_case(case, res):
     k = case["kind"]
+    if k == "feedback":
+        return run_feedback(case, res)
     if k == "views":
         rng = random.Random("c14v/%s/%s" % (case["seed"], case["name"]))
         Sweep(ViewScenario(case), res, "rt", case["name"]).run(case["cap"], rng, per_site=2)
